@@ -23,7 +23,7 @@ ASSUMPTIONS = ["execution observed by a verif-side command class (mc/vlib/graph.
 
 
 def BOUND(tier):
-    return ("n<=4 all edge-kind assignments, both build modes; histories depth 3 from all DAGs n<=3"
+    return ("n<=4 all edge-kind assignments, both build modes; multi-references (9 kinds incl. dd, dl, ll, ddl) on all DAGs with <=3 edges (n<=3) / <=2 edges (n=4); histories depth 3 from all DAGs n<=3"
             if tier == "quick" else
             "n<=4 all edge-kind assignments both build modes and both namings; n=5 one kind per consumer node x all DAGs; "
             "n=5 per-edge kinds for DAGs with <=4 edges; histories depth 4 from all DAGs n<=3, depth 3 from n=4 (direct edges)")
@@ -43,6 +43,12 @@ def cases(tier):
         for nm in namings:
             for lo in range(0, total, step):
                 yield ("graphs", n, lo, min(total, lo + step), nm, "edge")
+    # multi-references: one consumer naming the same producer several times (two direct slots, slot + list, twice in a list, ...)
+    for n in (2, 3, 4):
+        total = 1 << (n * (n - 1))
+        step = max(1, total // 256)
+        for lo in range(0, total, step):
+            yield ("graphs", n, lo, min(total, lo + step), 0, "multi")
     # histories
     for n in (1, 2, 3):
         total = 1 << (n * (n - 1))
@@ -136,7 +142,14 @@ def _one_program(n, edges, names, mode):
     return viols, "ok order=" + order
 
 
+MULTI_KINDS = ("d", "l", "n", "dd", "dl", "ll", "dn", "nn", "ddl")
+
+
 def _kinds_iter(n, es, how):
+    if how == "multi":
+        if not es or len(es) > (3 if n <= 3 else 2):
+            return ()
+        return (a for a in G.kind_assignments(es, MULTI_KINDS) if any(len(k) > 1 for _, _, k in a))
     if how == "edge" or (how == "edge4" and len(es) <= 4):
         return G.kind_assignments(es)
     if how == "edge4":
